@@ -80,6 +80,21 @@ pub fn children_of(e: &Envelope) -> Vec<(Edge, Envelope)> {
     }
 }
 
+/// every encrypted element of `e` as (nonce, ciphertext), by the harness's own recursion
+pub fn encrypted_elements(e: &Envelope) -> Vec<([u8; 12], Vec<u8>)> {
+    let mut out = Vec::new();
+    fn rec(e: &Envelope, out: &mut Vec<([u8; 12], Vec<u8>)>) {
+        if let EnvelopeCase::Encrypted(m) = e.case() {
+            out.push((*m.nonce().data(), m.ciphertext().clone()));
+        }
+        for (_, c) in children_of(e) {
+            rec(&c, out);
+        }
+    }
+    rec(e, &mut out);
+    out
+}
+
 pub fn tree_of(e: &Envelope) -> T {
     let kind = kind_of(e);
     let (leaf, kv) = match e.case() {
@@ -114,6 +129,24 @@ impl T {
             Kind::Assertion => vec![Edge::Predicate, Edge::Object],
             _ => vec![],
         }
+    }
+    /// an assertion element decorated twice without wrapping (node over node over ...); `obscured_core`: the
+    /// innermost subject is a placeholder
+    pub fn has_twice_decorated_assertion(&self, obscured_core: bool) -> bool {
+        if self.kind == Kind::Node {
+            for a in self.children.iter().skip(1) {
+                if a.kind == Kind::Node && a.children[0].kind == Kind::Node {
+                    let mut core = &a.children[0];
+                    while core.kind == Kind::Node {
+                        core = &core.children[0];
+                    }
+                    if !obscured_core || matches!(core.kind, Kind::Elided | Kind::Encrypted | Kind::Compressed) {
+                        return true;
+                    }
+                }
+            }
+        }
+        self.children.iter().any(|c| c.has_twice_decorated_assertion(obscured_core))
     }
     pub fn count(&self) -> usize {
         1 + self.children.iter().map(|c| c.count()).sum::<usize>()
